@@ -16,58 +16,89 @@ const (
 	opEnq = iota
 	opDeq
 	opAll
-	opReq
+	opReq // put back the most recently taken chunk that is still held (restores the stream order)
 	opDepth
 	nOps
+	// sequential enumeration only: put back the OLDEST held chunk (needs >= 2 held; the consumer then
+	// deliberately permutes the stream; the reference is the deque: every put-back goes to the very front)
+	opReqOld = nOps
+	seqOps   = nOps + 1
 )
 
-var opNames = [nOps]string{"Enqueue", "Dequeue", "DequeueAll", "Requeue", "GetDepth"}
+var opNames = [seqOps]string{"Enqueue", "Dequeue", "DequeueAll", "Requeue", "GetDepth", "RequeueOldestHeld"}
 
-// decodeHist returns the idx-th history of length L (base-5 digits, most significant first).
+// decodeHist returns the idx-th history of length L (base-6 digits, most significant first).
 func decodeHist(L int, idx int64) []int {
 	ops := make([]int, L)
 	for i := L - 1; i >= 0; i-- {
-		ops[i] = int(idx % nOps)
-		idx /= nOps
+		ops[i] = int(idx % seqOps)
+		idx /= seqOps
 	}
 	return ops
 }
 
-func pow5(L int) int64 {
+func powOps(L int) int64 {
 	n := int64(1)
 	for i := 0; i < L; i++ {
-		n *= nOps
+		n *= seqOps
 	}
 	return n
 }
 
-// seqValid applies the property's quantifier: Requeue is only called with what the most recent
-// dequeue (Dequeue or DequeueAll) returned, when that was something and was not put back already.
-// Decided on the reference list alone.
-func seqValid(ops []int) bool {
-	depth := 0
-	held := false
+// seqShape is what the reference alone says about a history.
+type seqShape struct {
+	valid      bool
+	twoOut     bool // at some point >= 2 put-back elements were in the queue at the same time
+	twoThenAll bool // ... and a DequeueAll of the history itself took them
+	twoThenDeq bool // ... and a Dequeue of the history itself took one of them
+	twoAtEnd   bool // >= 2 put-backs outstanding when the history ends: the final probe's DequeueAll takes them
+}
+
+// seqValid applies the property's quantifier: Requeue is only called by the consumer with a chunk
+// it took before (result of a Dequeue/DequeueAll) and has not put back since. The consumer may hold
+// several taken chunks and put them back one after the other, so several put-backs can be
+// outstanding at the same time. Decided on the reference alone.
+func seqValid(ops []int) seqShape {
+	depth, held, nPut := 0, 0, 0
+	var sh seqShape
 	for _, o := range ops {
 		switch o {
 		case opEnq:
 			depth++
 		case opDeq:
-			held = depth > 0
 			if depth > 0 {
 				depth--
+				held++
+				if nPut >= 2 {
+					sh.twoThenDeq = true
+				}
+				if nPut > 0 {
+					nPut--
+				}
 			}
 		case opAll:
-			held = depth > 0
-			depth = 0
-		case opReq:
-			if !held {
-				return false
+			if depth > 0 {
+				held++
+				if nPut >= 2 {
+					sh.twoThenAll = true
+				}
 			}
-			held = false
+			depth, nPut = 0, 0
+		case opReq, opReqOld:
+			if held == 0 || (o == opReqOld && held < 2) {
+				return sh
+			}
+			held--
 			depth++
+			nPut++
+			if nPut >= 2 {
+				sh.twoOut = true
+			}
 		}
 	}
-	return true
+	sh.valid = true
+	sh.twoAtEnd = nPut >= 2
+	return sh
 }
 
 func histString(ops []int) string {
@@ -82,7 +113,7 @@ func histString(ops []int) string {
 func runSeqHistory(ops []int, p *party) *finding {
 	q := util.NewQueue()
 	var ref [][]byte
-	var held []byte
+	var held [][]byte // chunks taken and not put back, oldest first
 	type srec struct {
 		op    int
 		b     []byte
@@ -100,7 +131,7 @@ func runSeqHistory(ops []int, p *party) *finding {
 				tag = "(final) "
 			}
 			switch x.op {
-			case opEnq, opReq:
+			case opEnq, opReq, opReqOld:
 				log = append(log, fmt.Sprintf("%s%s(%q)", tag, opNames[x.op], x.b))
 			case opDepth:
 				log = append(log, fmt.Sprintf("%sGetDepth() = %d", tag, x.d))
@@ -132,7 +163,6 @@ func runSeqHistory(ops []int, p *party) *finding {
 				if b != nil {
 					return fail("c20/seq:dequeue-nonnil-on-empty", "Dequeue() on an empty queue returned %q, expected nil", b)
 				}
-				held = nil
 				return nil
 			}
 			if b == nil {
@@ -142,7 +172,7 @@ func runSeqHistory(ops []int, p *party) *finding {
 				return fail("c20/seq:dequeue-wrong-chunk", "Dequeue() returned %q, expected %q", b, ref[0])
 			}
 			ref = ref[1:]
-			held = b
+			held = append(held, b)
 		case opAll:
 			b := q.DequeueAll()
 			note(o, b, 0, final)
@@ -150,7 +180,6 @@ func runSeqHistory(ops []int, p *party) *finding {
 				if b != nil {
 					return fail("c20/seq:dequeueall-nonnil-on-empty", "DequeueAll() on an empty queue returned %q, expected nil", b)
 				}
-				held = nil
 				return nil
 			}
 			want := bytes.Join(ref, nil)
@@ -161,12 +190,22 @@ func runSeqHistory(ops []int, p *party) *finding {
 				return fail("c20/seq:dequeueall-mismatch", "DequeueAll() returned %q, expected %q", b, want)
 			}
 			ref = nil
-			held = b
-		case opReq:
-			q.Requeue(held)
-			note(o, held, 0, final)
-			ref = append([][]byte{held}, ref...)
-			held = nil
+			held = append(held, b)
+		case opReq, opReqOld:
+			// the reference, from the property's words "putting a chunk back at the front ... put-back
+			// chunks re-read first": every put-back becomes the first element, so of two outstanding
+			// put-backs the later one is re-read first
+			var x []byte
+			if o == opReq {
+				x = held[len(held)-1]
+				held = held[:len(held)-1]
+			} else {
+				x = held[0]
+				held = held[1:]
+			}
+			q.Requeue(x)
+			note(o, x, 0, final)
+			ref = append([][]byte{x}, ref...)
 		case opDepth:
 			d := q.GetDepth()
 			note(o, nil, d, final)
@@ -211,9 +250,22 @@ func runSeq(d Desc) mon.Result {
 		defer p.leave(nil)
 		for idx := d.Lo; idx < d.Hi; idx++ {
 			ops := decodeHist(d.Len, idx)
-			if !seqValid(ops) {
+			sh := seqValid(ops)
+			if !sh.valid {
 				obs["seq_skipped_precondition"]++
 				continue
+			}
+			if sh.twoOut {
+				obs["seq_histories_with_two_outstanding_putbacks"]++
+			}
+			if sh.twoThenAll {
+				obs["seq_histories_two_putbacks_then_dequeueall"]++
+			}
+			if sh.twoThenDeq {
+				obs["seq_histories_two_putbacks_then_dequeue"]++
+			}
+			if sh.twoAtEnd {
+				obs["seq_histories_two_putbacks_then_final_dequeueall"]++
 			}
 			cur.Store(idx)
 			obs["seq_histories"]++
